@@ -356,3 +356,129 @@ def c04_message(inputs, doc):
             return dict(message=bytes(d).hex(), terminated=done, yielded=len(frames), observed=got[:5], expected=exp,
                         buffer_left=len(p._buffer))
     return None
+
+
+# --------------------------------------------------------------------------- C03
+
+def _frag_clauses(data, md, fs, hdr, lh, strict_size):
+    """Run the real fragmenter; return a problem description or None.  strict_size=False accepts the documented
+    +3 overshoot of metadata-bearing fragments (open known finding)."""
+    from rsocket.frame_fragmenter import data_to_fragments_if_required
+    frags = list(data_to_fragments_if_required(data, md, hdr, fs, lh))
+    dv, mv = data or b'', md or b''
+    if not frags:
+        return 'no fragment'
+    B1 = fs - hdr - (3 if lh else 0)
+    Bn = fs - 6 - (3 if lh else 0)
+    mcat = b''.join(f.metadata or b'' for f in frags)
+    dcat = b''.join(f.data or b'' for f in frags)
+    if mcat != mv or dcat != dv:
+        return 'concatenation differs'
+    seen_data = False
+    for i, f in enumerate(frags):
+        lm, ld = len(f.metadata or b''), len(f.data or b'')
+        if bool(f.is_first) != (i == 0):
+            return 'is_first wrong at %d' % i
+        if (f.is_last is None or bool(f.is_last)) != (i == len(frags) - 1):
+            return 'is_last wrong at %d' % i
+        if seen_data and lm:
+            return 'metadata after data at %d' % i
+        if ld and sum(len(g.metadata or b'') for g in frags[:i + 1]) != len(mv):
+            return 'data before all metadata at %d' % i
+        seen_data = seen_data or ld > 0
+        if lm + ld > (B1 if i == 0 else Bn):
+            return 'body over budget at %d: %d' % (i, lm + ld)
+        wire = (hdr if i == 0 else 6) + ((3 + lm) if lm else 0) + ld + (3 if lh else 0)
+        limit = fs if (strict_size or not lm) else fs + 3
+        if wire > limit:
+            return 'fragment %d is %d bytes on the wire (limit %d)' % (i, wire, fs)
+        if lm + ld == 0 and (mv or dv):
+            return 'empty fragment at %d' % i
+    if len(mv) + len(dv) <= B1 and len(frags) != 1:
+        return 'fits but %d fragments' % len(frags)
+    return None
+
+
+def c03_fragmenter(inputs, doc):
+    import re
+    m = re.search(r'hdr=(\d+),length_header=(\w+),md=(\w+),data=(\w+)', doc['harness'])
+    hdr, lh, mdk, dk = int(m.group(1)), m.group(2) == 'True', m.group(3), m.group(4)
+    strict = 'wire_size[' in doc['obligation']
+    fs0 = inputs.get('fragment_size', 64)
+    d0 = inputs.get('data') if dk != 'none' else None
+    m0 = inputs.get('metadata') if mdk != 'none' else None
+    cands = [(d0, m0, fs0)]
+    for fs in sorted({fs0, 64, 65, 70}):
+        if fs > 4096:
+            continue
+        B1 = fs - hdr - (3 if lh else 0)
+        Bn = fs - 6 - (3 if lh else 0)
+        lens = sorted({0, 1, 2, 3, B1 - 4, B1 - 3, B1 - 2, B1 - 1, B1, B1 + 1, B1 + 2, B1 + Bn - 3, B1 + Bn - 1, B1 + Bn, B1 + Bn + 1,
+                       B1 + 2 * Bn, B1 + 2 * Bn + 1})
+        for ml in ([0] if mdk == 'none' else lens):
+            for dl in ([0] if dk == 'none' else lens):
+                if ml < 0 or dl < 0:
+                    continue
+                cands.append((None if dk == 'none' else bytes(range(256)) * 2 and bytes((i * 7) % 256 for i in range(dl)),
+                              None if mdk == 'none' else bytes((i * 11 + 3) % 256 for i in range(ml)), fs))
+    for d, mm, fs in cands:
+        if fs is None or fs < 64 or fs > 100000:
+            continue
+        try:
+            bad = _frag_clauses(d, mm, fs, hdr, lh, strict)
+        except Exception as ex:
+            bad = 'exception %r' % ex
+        if bad:
+            return dict(data_len=len(d or b''), metadata_len=len(mm or b''), fragment_size=fs, header=hdr, length_header=lh, problem=bad)
+    return None
+
+
+def c03_cache(inputs, doc):
+    """End-to-end: fragment a real frame of every fragmentable type with the real code and reassemble it with the real cache."""
+    import rsocket.frame as F
+    from rsocket.frame_fragment_cache import FrameFragmentCache
+    sizes = [(0, 0), (1, 0), (0, 1), (10, 100), (100, 10), (200, 200), (55, 0), (0, 58), (52, 3)]
+    for cname in ('PayloadFrame', 'RequestResponseFrame', 'RequestFireAndForgetFrame', 'RequestStreamFrame', 'RequestChannelFrame'):
+        for ml, dl in sizes:
+            for complete in (False, True):
+                for fs in (None, 64, 70):
+                    fr = getattr(F, cname)()
+                    fr.stream_id = 7
+                    fr.metadata = bytes((i * 3) % 256 for i in range(ml))
+                    fr.data = bytes((i * 5 + 1) % 256 for i in range(dl))
+                    fr.flags_complete = complete
+                    fr.fragment_size_bytes = fs
+                    if hasattr(fr, 'initial_request_n') or cname in ('RequestStreamFrame', 'RequestChannelFrame'):
+                        fr.initial_request_n = 9
+                    cache = FrameFragmentCache()
+                    cache._frames_by_stream_id[9] = 'other'
+                    out = None
+                    n = 0
+                    while True:
+                        g = fr.get_next_fragment(True)
+                        if g is None:
+                            break
+                        n += 1
+                        wire = F.parse_or_ignore(g.serialize())
+                        res = cache.append(wire)
+                        if g.flags_follows:
+                            if res is not None:
+                                return dict(frame=cname, problem='frame returned before the last fragment')
+                        else:
+                            out = res
+                    prob = None
+                    if out is None:
+                        prob = 'nothing reassembled'
+                    elif type(out).__name__ != cname:
+                        prob = 'class %s' % type(out).__name__
+                    elif (out.metadata or b'') != fr.metadata or (out.data or b'') != fr.data:
+                        prob = 'content differs'
+                    elif cname in ('PayloadFrame', 'RequestChannelFrame') and bool(out.flags_complete) != complete:
+                        prob = 'complete flag %r, original %r' % (out.flags_complete, complete)
+                    elif cname in ('RequestStreamFrame', 'RequestChannelFrame') and out.initial_request_n != 9:
+                        prob = 'initial_request_n %r' % out.initial_request_n
+                    elif set(cache._frames_by_stream_id) != {9}:
+                        prob = 'cache entries left: %r' % sorted(cache._frames_by_stream_id)
+                    if prob:
+                        return dict(frame=cname, metadata_len=ml, data_len=dl, complete=complete, fragment_size=fs, fragments=n, problem=prob)
+    return None
